@@ -350,6 +350,43 @@ def _chains_parallel(chk, mod, rxs):
     return n, bad
 
 
+def check_number_literals(chk, rule, allow_int=False):
+    """every literal form the number regex accepts (digits, with fraction, with exponent, both; alone and inside a chain) is converted by float(<its own text>)"""
+    mod = chk.repo.module('parser')
+    rxs = classify_expr_regexes(mod)
+    it = ExprInterp(mod, rxs, rule)
+    n = 0
+    for flavour, example in (('int', '12'), ('dot', '1.5'), ('exp', '1e+16'), ('dotexp', '1.5e-07')):
+        for toks in ([('num', flavour)], [N, op('+'), ('num', flavour)], [op('-'), ('num', flavour)], [N, LP, ('num', flavour), RP]):
+            n += 1
+            got = it.parse(toks)
+            if got[0] == 'reject':
+                sig = got[1]
+                chk.bad(rule, mod, '_parse_unary_expression', f'literal like {example}: {sig.cls}', f'a number literal of the form {example} (as in `{show(toks)}`) makes the parser raise {sig.cls}{sig.args_[:1]!r}: '
+                        f'text the runtime prints for a number is not accepted back as a literal', node=sig.node)
+                break
+            leaves = []
+
+            def walk(v):
+                if isinstance(v, dict):
+                    if set(v) == {'number'}:
+                        leaves.append(v['number'])
+                    for x in v.values():
+                        walk(x)
+                elif isinstance(v, list):
+                    for x in v:
+                        walk(x)
+            walk(got[1])
+            good = len(leaves) == 1 and isinstance(leaves[0], Sym) and leaves[0].kind in (('float', 'int') if allow_int else ('float',)) and isinstance(leaves[0].args[0], Sym) \
+                and leaves[0].args[0].kind == 'lexeme'
+            if not good:
+                chk.bad(rule, mod, '_parse_unary_expression', f'literal like {example} becomes {leaves!r}',
+                        f'a number literal of the form {example} is not converted by float() of its own text (it becomes {leaves!r}): number literals must always be floats denoting the written number')
+                break
+        else:
+            chk.ok(rule, f'number literals like {example}: converted by float(<the literal text>) in every position (E6x)', count=4)
+
+
 def check_error_texts(chk, mod):
     """C06.X entry point: only the ill-formed part of the simulation (shared with C02.X / C02.R)"""
     rxs = classify_expr_regexes(mod)
